@@ -252,6 +252,10 @@ class Prop:
     def shrink(self, case, still_fails):
         return case
 
+    def prepare(self, cases):
+        """Called with a batch of cases before they are evaluated (e.g. to run expensive steps in parallel)."""
+        return None
+
     def finish(self, cases):
         """Whole-run oracle (properties about histories of calls). Returns list of Failure."""
         return []
@@ -390,6 +394,11 @@ def run_check(prop_cls, tier, seed, replay=None):
         nonlocal evaluations, traces
         all_ops, spans = [], []
         impl_all = []
+        try:
+            prop.prepare(cases)
+        except Exception as e:
+            harness_errors.append('prepare crashed: %r' % (e,))
+            traceback.print_exc()
         for c in cases:
             evaluations += 1
             k = prop.nontrivial_key(c)
